@@ -433,3 +433,67 @@ func VH18a_modes() {
 	}
 	sock.Close()
 }
+
+// inbound: wire bytes of one inbound message with body b for the given pattern (receiving side)
+func inbound(proto string, b []byte) []byte {
+	switch proto {
+	case "pair1", "xpair1", "star", "xstar":
+		return append([]byte{0, 0, 0, 0}, b...)
+	case "rep", "xrep", "respondent", "xrespondent":
+		return append([]byte{0x80, 0, 0, 1}, b...)
+	}
+	return b
+}
+
+// VH18c_repeat: the same deadline several times in a row. A socket with a
+// receive deadline and nothing to receive: R (4) consecutive Recv calls each
+// return the timeout error exactly when their own deadline has run (the clock
+// is moved to just before it: still waiting; to it: returned), none earlier,
+// none hanging -- the third and fourth like the first. Then a message arrives
+// and the next Recv returns it at once; no timer is left over. Patterns: every
+// one with a plain receive path.
+func VH18c_repeat() {
+	protos := []string{"pair", "xpair", "pair1", "pull", "xpull", "sub", "xsub", "bus", "xbus", "star", "xstar", "rep", "xrep", "respondent", "xrespondent"}
+	proto := protos[verif.Choice("proto", len(protos))]
+	R := verif.Param("R", 4)
+	lab := "C18/" + proto + "/repeat"
+	sock := vp.New(proto)
+	if proto == "sub" {
+		verif.Assert(sock.SetOption(mangos.OptionSubscribe, []byte{}) == nil, lab+"/subscribe")
+	}
+	D := time.Second
+	verif.Assert(sock.SetOption(mangos.OptionRecvDeadline, D) == nil, lab+"/set-deadline")
+	side := vt.Listen(sock, "a")
+	peer := side.Peer("p")
+	for i := 0; i < R; i++ {
+		t0 := verif.Now()
+		var err error
+		g := verif.Go("recv", func() { _, err = sock.RecvMsg() })
+		verif.Quiesce()
+		verif.Assert(!g.Done(), lab+"/recv-returns-before-its-deadline")
+		verif.RunClockTo(t0 + D - 1)
+		verif.Assert(!g.Done(), lab+"/recv-returns-before-its-deadline")
+		verif.RunClockTo(t0 + D)
+		verif.Quiesce()
+		verif.Assert(g.Done(), lab+"/recv-hangs-beyond-its-deadline")
+		if !g.Done() {
+			return
+		}
+		verif.Assert(err == mangos.ErrRecvTimeout, lab+"/recv-deadline-error")
+		// some time passes between the calls
+		verif.RunClockTo(verif.Now() + time.Duration(i)*300*time.Millisecond)
+	}
+	peer.Deliver(inbound(proto, []byte{'m'}))
+	verif.Quiesce()
+	var m *mangos.Message
+	var err error
+	g := verif.Go("recv-msg", func() { m, err = sock.RecvMsg() })
+	verif.Quiesce()
+	verif.Assert(g.Done() && err == nil, lab+"/message-not-delivered-after-repeated-timeouts")
+	if g.Done() && err == nil {
+		verif.Assert(len(m.Body) == 1 && m.Body[0] == 'm', lab+"/message-changed")
+	}
+	verif.Assert(!peer.Closed, lab+"/peer-disconnected-by-timeouts")
+	verif.Reach("repeat-checked")
+	sock.Close()
+}
